@@ -704,15 +704,23 @@ pub fn iso(a: &WModule, b: &WModule, mode: IsoMode) -> Result<Maps, Vec<Mismatch
             }
         };
     }
-    // exports: same ordered list
+    // exports: the same set of (name, kind); export names are unique in a valid module, and the
+    // property does not fix their order (it does for imports and segments), so they are matched by name
     if a.exports.len() != b.exports.len() {
         errs.push(Mismatch {
             sig: "export-count-changed".into(),
             detail: format!("{} vs {}", a.exports.len(), b.exports.len()),
         });
     }
-    for (x, y) in a.exports.iter().zip(b.exports.iter()) {
-        if x.name != y.name || x.space != y.space {
+    for x in a.exports.iter() {
+        let y = match b.exports.iter().find(|y| y.name == x.name) {
+            Some(y) => y,
+            None => {
+                errs.push(Mismatch { sig: "export-dropped".into(), detail: format!("{:?} has no counterpart", x) });
+                continue;
+            }
+        };
+        if x.space != y.space {
             errs.push(Mismatch {
                 sig: "export-changed".into(),
                 detail: format!("{:?} vs {:?}", x, y),
